@@ -15,6 +15,7 @@ import (
 	"strings"
 	"time"
 
+	eth2apiv1 "github.com/attestantio/go-eth2-client/api/v1"
 	"github.com/attestantio/go-eth2-client/spec/phase0"
 	specqbft "github.com/bloxapp/ssv-spec/qbft"
 	spectypes "github.com/bloxapp/ssv-spec/types"
@@ -196,7 +197,11 @@ func (c *Case) ValidateP2P(data []byte, topic string, at time.Time, kind string)
 	if tp == "" {
 		tp = "-"
 	}
-	op := fmt.Sprintf("p sdo=%d plen=%d ndo=%d top=%d %s topic=%s pdata=%s", b2i(sdo), len(payload), b2i(ndo), b2i(top), fields, tp, hx.Hex(data))
+	pd := hx.Hex(data)
+	if len(data) > 1<<16 && isZero(data) {
+		pd = fmt.Sprintf("z%d", len(data))
+	}
+	op := fmt.Sprintf("p sdo=%d plen=%d ndo=%d top=%d %s topic=%s pdata=%s", b2i(sdo), len(payload), b2i(ndo), b2i(top), fields, tp, pd)
 	pm := &pubsub.Message{Message: &pspb.Message{Data: data, Topic: &topic}}
 	var verr error
 	var pan any
@@ -323,7 +328,7 @@ func (c *Case) checkRules(kind string, msg *spectypes.SSVMessage, dec *queue.Dec
 		c.violate("C09/accepted-liquidated-validator", "accepted a message for a liquidated validator")
 	}
 	if share.BeaconMetadata == nil || !(share.BeaconMetadata.Status.IsAttesting() ||
-		(share.BeaconMetadata.Status.IsPending() && uint64(share.BeaconMetadata.ActivationEpoch) <= uint64(w.NetCfg.Beacon.EstimatedCurrentEpoch()) && share.BeaconMetadata.Status.String() == "pending_queued")) {
+		(share.BeaconMetadata.Status == eth2apiv1.ValidatorStatePendingQueued && uint64(share.BeaconMetadata.ActivationEpoch) <= uint64(w.NetCfg.Beacon.EstimatedCurrentEpoch()))) {
 		c.violate("C09/accepted-inactive-validator", "accepted a message for a validator that is not active")
 	}
 	if p2p != nil {
